@@ -28,7 +28,7 @@ class Untranslatable(Exception):
 
 
 # ---- C expression parser -------------------------------------------------------------------------
-TOK = re.compile(r"\s*(0[xX][0-9a-fA-F]+|\d+|[A-Za-z_]\w*|\+=|>>|<<|[-+&|^?:=()\[\],;])")
+TOK = re.compile(r"\s*(0[xX][0-9a-fA-F]+|\d+|[A-Za-z_]\w*|\+=|>>|<<|[-+&|^~?:=()\[\],;])")
 
 
 def tokenize(s):
@@ -112,6 +112,8 @@ class Parser:
 
     def postfix(self):
         t = self.eat()
+        if t == "~":
+            return ("not", self.postfix())
         if t == "(":
             r = self.assign()
             self.eat(")")
@@ -149,6 +151,8 @@ def subst(n, env):
         return env.get(n[1], n)
     if k == "num":
         return n
+    if k == "not":
+        return ("not", subst(n[1], env))
     if k == "idx":
         if n[1] in env:
             raise Untranslatable(f"macro parameter {n[1]} used as array")
@@ -184,6 +188,8 @@ class Macros:
             return set(), set(), set()
         if k == "var":
             return set(), set(), {n[1]}
+        if k == "not":
+            return self.effects(n[1])
         if k == "idx":
             r, w, s = self.effects(n[2])
             return r | {n[1]}, w, s
@@ -266,6 +272,8 @@ class Emitter:
             return str(n[1])
         if k == "var":
             return n[1]
+        if k == "not":
+            return f"(~~~ {self.expr(n[1])})"
         if k == "idx":
             e = self.expr(n[2])
             base = f"{self.st}.{n[1]}" if n[1] in self.mutable else n[1]
@@ -418,9 +426,10 @@ def generate(repo):
     pp = preprocess(repo)
     defs = macro_table(pp)
     code = "\n".join(l for l in pp.splitlines() if not l.startswith("#"))
-    for name in ("_SHA256_UNROLL", "_SHA256_UNROLL2"):
-        if name in defs:
-            raise Untranslatable(f"{name} is defined: the unrolled variant of Transform is not modelled")
+    # _SHA256_UNROLL only unrolls the `i` loop over the same macro R(i); _SHA256_UNROLL2 replaces the
+    # array T by eight scalar variables and R by a nine-parameter macro, which is not modelled
+    if "_SHA256_UNROLL2" in defs:
+        raise Untranslatable("_SHA256_UNROLL2 is defined: the scalar-register variant of Transform is not modelled")
     m = re.search(r"Sha256::Private::K\s*\[\s*64\s*\]\s*=\s*\{(.*?)\}\s*;", code, re.S)
     if not m:
         raise Untranslatable("table Sha256::Private::K[64] not found")
